@@ -84,7 +84,7 @@ pub fn run(o: &Opts) -> Report {
     let mut rep = Report::new("C17", "random command trees (depth <= 3, flags, options, positionals, possible values with help, subcommand about) x six generators x an assignment of adversarial strings (quotes of both kinds, backslashes, $(...), backticks, brackets, colons, newlines, typographic quotes, non-ASCII) to EVERY descriptive-text slot; tie: script(adversarial) == script(markers) with each marker replaced by the model's escaped text for that shell/slot, and the model scanner's quoting state at every marker is the slot's declared context; oracle: for every text, scanning the escaped text from the slot's context returns to that context without expansion (the instance of the theorem); bash: the script is byte-identical whatever the texts and passes `bash -n`; non-trivial = at least one slot text with a quote, backslash, $ or newline");
     let mut rng = Rng::new(o.seed ^ 0xC17);
     let n = if o.thorough() { 3000 } else { 250 };
-    struct Case { shell: &'static str, key: String, s_m: String, s_a: String, kinds: Vec<K>, texts: Vec<String>, esc_req: Vec<usize>, scan_req: Vec<(usize, usize)>, slotscan_req: Vec<usize>, real_req: Vec<(usize, String, usize)> }
+    struct Case { zsh_l2: Vec<(usize, String, usize, usize)>, shell: &'static str, key: String, s_m: String, s_a: String, kinds: Vec<K>, texts: Vec<String>, esc_req: Vec<usize>, scan_req: Vec<(usize, usize)>, slotscan_req: Vec<usize>, real_req: Vec<(usize, String, usize)> }
     let mut reqs: Vec<String> = vec![]; let mut cases: Vec<Case> = vec![];
     for ci in 0..n {
         let mut kinds = vec![];
@@ -117,7 +117,7 @@ pub fn run(o: &Opts) -> Report {
                 }
                 continue;
             }
-            let mut case = Case { shell, key, s_m: s_m.clone(), s_a, kinds: kinds.clone(), texts: texts.clone(), esc_req: vec![], scan_req: vec![], slotscan_req: vec![], real_req: vec![] };
+            let mut case = Case { shell, key, s_m: s_m.clone(), s_a, kinds: kinds.clone(), texts: texts.clone(), esc_req: vec![], scan_req: vec![], slotscan_req: vec![], real_req: vec![], zsh_l2: vec![] };
             for (i, k) in kinds.iter().enumerate() {
                 case.esc_req.push(reqs.len());
                 reqs.push(format!("esc {shell} {} {}", slot_name(shell, *k), hex(texts[i].as_bytes())));
@@ -148,6 +148,12 @@ pub fn run(o: &Opts) -> Report {
                     let real = case.s_a[pa..pa + q].to_string();
                     case.real_req.push((*i, real.clone(), reqs.len()));
                     reqs.push(format!("scanfrom {shell} {} {}", slot_name(shell, kinds[*i]), if real.is_empty() { "-".to_string() } else { hex(real.as_bytes()) }));
+                    // zsh, second level: what the shell hands to _arguments for this slot (escape_help slots only)
+                    if shell == "zsh" && slot_name(shell, kinds[*i]) != "posHelp" && case.zsh_l2.len() < 6 {
+                        let r1 = reqs.len(); reqs.push(format!("zshunq {}", if real.is_empty() { "-".to_string() } else { hex(real.as_bytes()) }));
+                        let r2 = reqs.len(); reqs.push(format!("zshspec {}", hex(texts[*i].as_bytes())));
+                        case.zsh_l2.push((*i, real.clone(), r1, r2));
+                    }
                     pa += q;
                 }
                 if !aligned { rep.count("scripts_not_alignable"); }
@@ -184,6 +190,26 @@ pub fn run(o: &Opts) -> Report {
                         &format!("text {:?} appears in the real script as {real:?}: scanner {out}", c.texts[*i]));
                 }
                 rep.count("real_slot_texts_scanned");
+            }
+            // (4) zsh second level: the model's reading of the single-quoted word equals REAL bash's (same quoting rules as zsh
+            //     for '..', \' and concatenation), equals the spec-level chain of the text, and the description closes no field
+            if !c.zsh_l2.is_empty() {
+                let script: String = format!("printf '%s\\0'{}\n", c.zsh_l2.iter().map(|(_, real, _, _)| format!(" '{real}'")).collect::<String>());
+                let out = std::process::Command::new("bash").arg("--norc").arg("-c").arg(&script).output();
+                if let Ok(out) = out {
+                    let parts: Vec<&[u8]> = out.stdout.split(|b| *b == 0).collect();
+                    for (k, (i, real, r1, r2)) in c.zsh_l2.iter().enumerate() {
+                        let bash_read = parts.get(k).map(|p| hex(p)).unwrap_or_default();
+                        let model_read = model[*r1].clone();
+                        let spec = model[*r2].split(' ').next().unwrap_or("").to_string();
+                        let flags = model[*r2].split(' ').nth(1).unwrap_or("?").to_string();
+                        let norm = |h: &str| if h == "-" { String::new() } else { h.to_string() };
+                        if norm(&bash_read) != norm(&model_read) { rep.disagree("zshunq", &format!("{} slot {i}", c.key), &format!("model reads {real:?} as {}", model_read), &format!("bash reads it as {}", bash_read)); }
+                        if norm(&model_read) != norm(&spec) { rep.disagree("zshspec", &format!("{} slot {i}", c.key), &format!("spec-level chain gives {}", spec), &format!("the shell hands over {}", model_read)); }
+                        if flags != "000" { rep.oracle_fail("zsh-spec-field-closed-by-text", &c.key, &format!("text {:?}: dangling-escape/]/: flags {flags}", c.texts[*i])); }
+                        rep.count("zsh_second_level_slots");
+                    }
+                }
             }
             // (3) the text stays inside its literal (instance of the theorem; fails only in unsound slots)
             for (i, k) in c.kinds.iter().enumerate() {
